@@ -1080,8 +1080,30 @@ func (vc *VC) bitUF(op string, bits int, a, b Term, rt types.Type, boundedByA bo
 		facts = and(facts, app("<=", r, a))
 	}
 	vc.addAssume("true", facts)
-	vc.assume("bit operation treated as uninterpreted (range facts only): " + op + " in " + vc.fn.String())
-	return Val{t: r, typ: rt}
+	vc.assume("bit operation treated as uninterpreted (range facts only, exact for all-zero / all-one operands): " + op + " in " + vc.fn.String())
+	// exact cases: one operand 0 or all ones (-1 signed / max unsigned)
+	_, signed, _ := intInfo(rt)
+	ones := "(- 1)"
+	if !signed {
+		_, hi, _ := intRange(rt)
+		ones = bigNum(hi)
+	}
+	neg := func(x Term) Term { // bitwise complement
+		if signed {
+			return app("-", app("-", x), "1")
+		}
+		return app("-", ones, x)
+	}
+	res := r
+	switch op {
+	case "xor":
+		res = ite(eq(b, "0"), a, ite(eq(a, "0"), b, ite(eq(b, ones), neg(a), ite(eq(a, ones), neg(b), r))))
+	case "and":
+		res = ite(or(eq(a, "0"), eq(b, "0")), "0", ite(eq(b, ones), a, ite(eq(a, ones), b, r)))
+	case "or":
+		res = ite(eq(b, "0"), a, ite(eq(a, "0"), b, ite(or(eq(a, ones), eq(b, ones)), ones, r)))
+	}
+	return Val{t: res, typ: rt}
 }
 
 func (vc *VC) truncDiv(a, b Term) Term {
